@@ -86,6 +86,8 @@ class Inventory:
                     out.append((fn, b, "assert", t["msg"]))
                 elif t["k"] == "call":
                     k = classify(t)
+                    if k == "index" and len(t.get("arg_tys", [])) > 1 and t["arg_tys"][1] == "core::ops::range::RangeFull":
+                        k = None          # `v[..]`: the full range cannot be out of bounds
                     if k:
                         msg = t["callee"]
                         if k == "panic" and t["args"] and t["args"][0]["k"] == "const":
